@@ -159,6 +159,9 @@ def decoder_consumers():
     }
 
 
+REPETITION_CONSUMERS = ["repetition_llr", "repetition_llr_sum", "repetition_llr_median", "repetition_llr_max", "repetition_llr_min",
+                        "repetition_llr_thr_mindist", "repetition_llr_thr_hysteresis", "repetition_llr_thr_weighted", "repetition_llr_thr_llr"]
+
 # ----------------------------------------------------------------------------- checks
 
 def prod_cell(p):
@@ -197,7 +200,16 @@ def check_pair(ctx, prod, cname, bits, kind="thresholder", cons=None, mod=None, 
         ok, llr = ctx.call(lambda: produce(prod, rep, prod.get("noise_var"), mod, dem), "C15.producer_raises", cell, case, checker=CHK)
         if not ok:
             return
-        dec = T.RepetitionSoftBitDecoder(repetition_factor=3, input_type=T.InputType.LLR)
+        L_ = T.InputType.LLR
+        thr = {"mindist": lambda: T.MinDistanceThresholder(input_type=L_), "hysteresis": lambda: T.HysteresisThresholder(high_threshold=0.5, low_threshold=0.5, input_type=L_),
+               "weighted": lambda: T.WeightedThresholder(weights=1.0, input_type=L_), "llr": lambda: T.LLRThresholder()}
+        opt = cname[len("repetition_llr"):].strip("_")
+        kw = {}
+        if opt in ("sum", "median", "max", "min"):
+            kw["soft_combine_method"] = opt
+        elif opt.startswith("thr_"):
+            kw["thresholder"] = thr[opt[4:]]()
+        dec = T.RepetitionSoftBitDecoder(repetition_factor=3, input_type=T.InputType.LLR, **kw)
         ok, out = ctx.call(lambda: dec(torch.from_numpy(llr.astype(np.float32)).reshape(1, -1)).numpy().reshape(-1), "C15.consumer_raises", cell, case, checker=CHK)
         if not ok:
             return
@@ -271,7 +283,8 @@ def unit_producers(ctx, producers):
         for bits in sequences(prod, rng, ctx.tier, short):
             for cname in cons:
                 check_pair(ctx, prod, cname, bits, "thresholder", cons, mod, dem)
-            check_pair(ctx, prod, "repetition_llr", bits, "repetition", None, mod, dem)
+            for rname in REPETITION_CONSUMERS:
+                check_pair(ctx, prod, rname, bits, "repetition", None, mod, dem)
             # the same symbols as a plain 1-D tensor (demodulators have separate unbatched code paths)
             if prod["scheme"] != "synthetic" and len(bits) >= 10:
                 for cname in ("llr_thresholder", "llr_to_bits", "hysteresis_0.5"):
@@ -285,7 +298,7 @@ def unit_producers(ctx, producers):
                     msg[0] = 1 - msg[0]
                 check_pair(ctx, prod, cname, msg, "decoder", dcons, mod, dem)
         if len(ctx.samples) < 2:
-            ctx.sample({"producer": prod, "consumers": list(cons) + ["repetition_llr"] + list(dcons)})
+            ctx.sample({"producer": prod, "consumers": list(cons) + REPETITION_CONSUMERS + list(dcons)})
 
 
 def unit_conversions(ctx):
